@@ -208,3 +208,23 @@ Theorem C10_new_deref_zero_literal : forall en t e h,
   exists v, evalS en e h = Some (RVal v, h) /\ cmp_val OEq v (default_value t) = Some true.
 Proof. exact new_deref_zero_literal. Qed.
 Print Assumptions C10_new_deref_zero_literal.
+
+(* unlambda: the function literal evaluates its callee when called, the replacement when defined *)
+Theorem C10_unlambda_pkg_func_stable : forall n, callee_stable (CPkgFunc n).
+Proof. exact unlambda_pkg_func_stable. Qed.
+Print Assumptions C10_unlambda_pkg_func_stable.
+
+Theorem C10_unlambda_flags_shape : forall c,
+  unlambda_flags c = true -> (exists n, c = CPkgFunc n) \/ (exists r m, c = CMethod r false m).
+Proof. exact unlambda_flags_shape. Qed.
+Print Assumptions C10_unlambda_flags_shape.
+
+Theorem C10_unlambda_stable_only_pkg_func : forall c, callee_stable c -> exists n, c = CPkgFunc n.
+Proof. exact unlambda_stable_only_pkg_func. Qed.
+Print Assumptions C10_unlambda_stable_only_pkg_func.
+
+(* recorded finding C10/unlambda/method-value-capture *)
+Theorem C10_unlambda_method_value_refuted :
+  exists c st1 st2, unlambda_flags c = true /\ callee_eval st1 c <> callee_eval st2 c.
+Proof. exact unlambda_method_value_refuted. Qed.
+Print Assumptions C10_unlambda_method_value_refuted.
